@@ -50,6 +50,8 @@ def rpath(p):
     s = "/".join(p)
     if RICH and p == ["x"]:
         return "x\udce9.py"     # bytes x\xe9.py on disk: legal on Linux, a lone surrogate in the str path
+    if p == ["n"]:
+        return "e"            # C12: a FILE rendered where the folder `e` would be (never both present)
     if p[-1] in ("x", "y"):
         s += ".py"
     elif p[-1] == "k":
@@ -93,6 +95,8 @@ def abstract_tree(root):
             names[-1] = names[-1][:-3]
         elif names[-1].endswith(".bak"):
             names[-1] = names[-1][:-4]
+        if data is not None and names == ["e"]:
+            names = ["n"]
         if data is None:
             out.append([names, -2])
         else:
